@@ -37,6 +37,7 @@ type c15In struct {
 	Attempts int     `json:"read_attempts"`
 	Script   []c15Op `json:"script"`
 	Class    string  `json:"class"`
+	PathForm string  `json:"path_form,omitempty"` // how the followed path is spelled (the writer always uses the plain absolute path): "" | clean | dot | dslash | updown | relative | dotrel | symdir
 	Via      string  `json:"via,omitempty"` // "" = followreader.New directly; "batcher" = batchers.TailFilesToChan (batch size 1)
 }
 type c15Ent struct {
@@ -81,11 +82,59 @@ func (r *runner) drained() bool {
 
 const stallLimit = 2500 * time.Millisecond
 
+// followPath spells the name handed to followreader.New / TailFilesToChan.  All forms denote the same file.
+func followPath(dir, form string, writer *string) (string, error) {
+	const name = "followed.log"
+	switch form {
+	case "", "clean":
+		return dir + "/" + name, nil
+	case "dot":
+		return dir + "/./" + name, nil
+	case "dslash":
+		return dir + "//" + name, nil
+	case "updown":
+		if err := os.MkdirAll(filepath.Join(dir, "sub"), 0o755); err != nil {
+			return "", err
+		}
+		return dir + "/sub/../" + name, nil
+	case "relative", "dotrel":
+		cwd, err := os.Getwd()
+		if err != nil {
+			return "", err
+		}
+		rel, err := filepath.Rel(cwd, filepath.Join(dir, name))
+		if err != nil {
+			return "", err
+		}
+		if form == "dotrel" {
+			return "./" + rel, nil
+		}
+		return rel, nil
+	case "symdir": // the directory is reached through a symbolic link
+		realDir := filepath.Join(dir, "real")
+		if err := os.MkdirAll(realDir, 0o755); err != nil {
+			return "", err
+		}
+		if err := os.Symlink("real", filepath.Join(dir, "link")); err != nil {
+			return "", err
+		}
+		*writer = filepath.Join(realDir, name)
+		return filepath.Join(dir, "link", name), nil
+	}
+	return "", fmt.Errorf("unknown path form %q", form)
+}
+
+var pathForms = []string{"clean", "dot", "dslash", "updown", "relative", "dotrel", "symdir"}
+
 func c15Run(in c15In) (out c15Out) {
 	dir := filepath.Join(workDir(), fmt.Sprintf("case%d", atomic.AddInt64(&caseSeq, 1)))
 	os.MkdirAll(dir, 0o755)
 	defer os.RemoveAll(dir)
-	path := filepath.Join(dir, "followed.log")
+	path := filepath.Join(dir, "followed.log") // the writer's name of the file
+	follow, ferr := followPath(dir, in.PathForm, &path)
+	if ferr != nil {
+		return c15Out{Term: 2, Note: "setup: " + ferr.Error()}
+	}
 	if in.C0 != nil {
 		b, _ := hex.DecodeString(*in.C0)
 		if err := os.WriteFile(path, b, 0o644); err != nil {
@@ -105,7 +154,7 @@ func c15Run(in c15In) (out c15Out) {
 	if in.Via == "batcher" {
 		// the glue of pkg/extractor/batchers/tailBatcher.go: New, Drain iff tail, line scanner, batches of one line
 		names := make(chan string, 1)
-		names <- path
+		names <- follow
 		close(names)
 		b := batchers.TailFilesToChan(names, 1, 4, in.Reopen, in.Poll, in.Tail)
 		t0 := time.Now()
@@ -133,7 +182,7 @@ func c15Run(in c15In) (out c15Out) {
 		}()
 	} else {
 		var err error
-		fr, err = followreader.New(path, in.Reopen, in.Poll)
+		fr, err = followreader.New(follow, in.Reopen, in.Poll)
 		if err != nil {
 			return c15Out{Term: 2, Note: "New: " + err.Error()}
 		}
@@ -395,7 +444,11 @@ func c15Case(in c15In) Case {
 	if in.Poll {
 		mode = "poll"
 	}
-	tags := []string{"mode:" + mode, "class:" + in.Class}
+	pf := in.PathForm
+	if pf == "" {
+		pf = "clean"
+	}
+	tags := []string{"mode:" + mode, "class:" + in.Class, "path:" + pf}
 	if in.Via != "" {
 		tags = append(tags, "via:"+in.Via)
 	}
@@ -622,6 +675,7 @@ func c15Plan(r *Rng, n int, notify bool) []c15In {
 		{"paused-rotate", false, true}, {"paused-rotate", false, true}, {"paused-rotate", false, true},
 		{"paused-rotate", true, true}, {"paused-rotate", false, false},
 	}
+	formOff := r.Intn(len(pathForms))
 	for i := 0; len(ins) < n; i++ {
 		c := classes[i%len(classes)]
 		if !notify && !c.poll {
@@ -631,7 +685,10 @@ func c15Plan(r *Rng, n int, notify bool) []c15In {
 		if c.name == "batcher" { // alternate, so that both branches of tailBatcher.go are taken in every run
 			tail = (i/len(classes))%2 == 0
 		}
-		ins = append(ins, g.mk(c.name, c.poll, c.reopen, tail, r.Range(4, 24)))
+		in := g.mk(c.name, c.poll, c.reopen, tail, r.Range(4, 24))
+		// every class meets every spelling of the path over the cycles (and over the seeds)
+		in.PathForm = pathForms[(i+i/len(classes)+formOff)%len(pathForms)]
+		ins = append(ins, in)
 	}
 	return ins
 }
@@ -682,6 +739,7 @@ func main() {
 		Rule: "real followreader.New (notify via inotify, poll with PollDelay 1 ms and ReadAttempts in {1,2,5}) on a temporary file; seeded writer histories of 4..30 operations " +
 			"(classes: in-place appends with seeded pauses 0..2.5 ms and occasional wait-for-drain; burst of back-to-back appends; removal after drain at the end (plain follow: EOF expected); " +
 			"rotation = remove after drain, re-create, append (polling: first append shorter than the removed file and drained before the next); file missing at start with re-open; " +
+			"every class x spelling of the followed path {clean absolute, dir/./f, dir//f, dir/sub/../f, relative to the working directory, ./relative, through a symlinked directory} (the writer uses the plain name); " +
 			"double rotation remove/create/remove/create without pauses (an empty middle file: with notify re-open the domain of finding C15-notify-stale-delete); " +
 			"paused consumer: the consumer leaves Read after draining, the writer removes, re-creates and appends, the consumer resumes after 0.3..4 ms so that delete, create and write notifications are pending together and the select serves them in arbitrary order, 4 rounds per case) x {notify, poll} x {re-open, plain} x {tail, from start}, read buffer in {1,2,3,7,64,4096}. " +
 			"distinct = distinct (flags, initial content, script with timing); non-trivial = at least two appends or a removal. " +
